@@ -1,5 +1,6 @@
-"""C19: report every import request that comes through the C API (PyImport_Import / PyImport_ImportModule call
-builtins.__import__(name, globals, globals, ['__doc__'], 0) -- the fromlist is a *list*, which Python code never passes)."""
+"""C19: report every import request that comes through the C API (PyImport_ImportModule -> PyImport_Import calls
+builtins.__import__(name, globals, globals, from_list, 0) with from_list a *list* ([] in 3.11, ['__doc__'] before);
+import statements executed by Python code pass None or a tuple)."""
 import builtins
 import os
 
@@ -8,7 +9,7 @@ _orig = builtins.__import__
 
 
 def _c19_import(name, globals=None, locals=None, fromlist=(), level=0):
-    if level == 0 and name in _TRACKED and type(fromlist) is list and fromlist == ["__doc__"]:
+    if level == 0 and name in _TRACKED and type(fromlist) is list:
         os.write(2, ("I %s\n" % name).encode())
     return _orig(name, globals, locals, fromlist, level)
 
